@@ -124,4 +124,229 @@ Proof.
     + intros h' Hh'. apply HX. apply mkset_In. now apply Hall.
 Qed.
 
+(* ---------------------------------------------------------------------------------------------- *)
+(* the target partition                                                                            *)
+
+Lemma Permutation_concat {T} (l l' : list (list T)) : Permutation l l' -> Permutation (concat l) (concat l').
+Proof.
+  induction 1; simpl.
+  - constructor.
+  - now apply Permutation_app_head.
+  - rewrite !app_assoc. apply Permutation_app_tail. apply Permutation_app_comm.
+  - eapply perm_trans; eauto.
+Qed.
+
+Lemma perm_to_end {T} (a : list T) x r : Permutation (a ++ x :: r) (a ++ r ++ [x]).
+Proof. apply Permutation_app_head. apply Permutation_cons_append. Qed.
+
+Lemma blocks_disjoint (BL1 : list (list N)) B B2 x :
+  NoDup (concat (BL1 ++ [B])) -> In B2 BL1 -> In x B2 -> In x B -> False.
+Proof.
+  rewrite concat_app. simpl. rewrite app_nil_r. intros H HB2 Hx2 Hx. apply NoDup_app_iff in H.
+  destruct H as (_ & _ & Hd). apply (Hd x); [|assumption]. apply in_concat. eauto.
+Qed.
+
+Variable Tgt : list (list N).
+Hypothesis HT_nd : NoDup (concat Tgt).
+Hypothesis HT_in : incl (concat Tgt) alts.
+Hypothesis HT_cov : forall a, In a alts -> In a (concat Tgt).
+Hypothesis HT_sp : forall B, In B Tgt -> completable votes pa_empty B.
+
+Lemma block_facts B : In B Tgt -> NoDup B /\ incl B alts.
+Proof.
+  intros HB. split.
+  - apply NoDup_concat_iff in HT_nd. destruct HT_nd as [H _]. rewrite Forall_forall in H. auto.
+  - intros a Ha. apply HT_in. apply in_concat. eauto.
+Qed.
+
+Definition RelP (p : paxis * list N) : Prop :=
+  incl (pa_elems (fst p)) (snd p) /\ NoDup (pa_elems (fst p)) /\
+  completable votes (fst p) (unpl (fst p) (snd p)) /\ pa_elems (fst p) <> [].
+
+(* the axes can be paired with distinct blocks of the target *)
+Definition Compat (res : list paxis) : Prop :=
+  exists P F, res = map fst P /\ Permutation Tgt (map snd P ++ F) /\ Forall RelP P.
+
+(* untouched pairs at a level: the started axes not yet extended at this level, and the free blocks *)
+Definition UP (PUs : list (paxis * list N)) (Fs : list (list N)) : list (paxis * list N) :=
+  PUs ++ map (pair pa_empty) Fs.
+
+Lemma UP_snd PUs Fs q : In q (UP PUs Fs) -> In (snd q) (map snd PUs ++ Fs).
+Proof.
+  unfold UP. intros H. apply in_app_or in H. apply in_or_app. destruct H as [H|H]; [left; now apply in_map|right].
+  apply in_map_iff in H. destruct H as (B & <- & HB). exact HB.
+Qed.
+
+Lemma filter_skip (l : list (paxis * list N)) A :
+  (forall q, In q l -> fst q <> A) -> filter (fun a => negb (pa_eqb a A)) (map fst l) = map fst l.
+Proof.
+  intros H. apply filter_all_true. intros a Ha. apply in_map_iff in Ha. destruct Ha as (q & <- & Hq).
+  apply negb_true_iff. destruct (pa_eqb (fst q) A) eqn:Eq; [|reflexivity]. apply pa_eqb_eq in Eq. now apply H in Hq.
+Qed.
+
+Lemma level_step : forall n items later PUs Fs PD,
+  length items <= n ->
+  Permutation Tgt (map snd PUs ++ Fs ++ map snd PD) ->
+  Forall RelP (PUs ++ PD) ->
+  NoDup (items ++ later) ->
+  (forall A B y, In (A, B) (UP PUs Fs) -> In y (unpl A B) -> In y (items ++ later)) ->
+  (forall h, In h items -> exists A B, In (A, B) (UP PUs Fs) /\ In h (unpl A B)) ->
+  (forall A B h, In (A, B) (UP PUs Fs) -> In h items -> In h (unpl A B) -> isbottom votes (unpl A B) h) ->
+  exists ext, Canon items later ext /\ length ext <= length PUs + length Fs /\
+    forall lim, length Tgt <= lim ->
+    exists res, ExtR votes lim (map fst PUs) (map fst PD) ext res /\ Compat res /\
+      (forall a, In a (E (map fst PUs ++ map fst PD)) -> In a (E res)) /\
+      (forall h, In h items -> In h (E res)).
+Proof.
+  induction n as [|n IH]; intros items later PUs Fs PD Hlen Hperm HR Hnl J1 J2 J3.
+  - destruct items; [|simpl in Hlen; lia]. exists []. split; [constructor|]. split; [simpl; lia|].
+    intros lim _. exists (map fst PUs ++ map fst PD). split; [constructor|]. split; [|split; [auto|intros h []]].
+    exists (PUs ++ PD), Fs. split; [now rewrite map_app|]. split; [|assumption].
+    rewrite map_app, <- app_assoc. eapply perm_trans; [exact Hperm|]. apply Permutation_app_head. apply Permutation_app_comm.
+  - destruct items as [|h tail].
+    { exists []. split; [constructor|]. split; [simpl; lia|].
+      intros lim _. exists (map fst PUs ++ map fst PD). split; [constructor|]. split; [|split; [auto|intros h []]].
+      exists (PUs ++ PD), Fs. split; [now rewrite map_app|]. split; [|assumption].
+      rewrite map_app, <- app_assoc. eapply perm_trans; [exact Hperm|]. apply Permutation_app_head. apply Permutation_app_comm. }
+    destruct (J2 h (or_introl eq_refl)) as (A & B & HAB & HhU).
+    pose proof (J3 A B h HAB (or_introl eq_refl) HhU) as Hbot.
+    assert (HBT : In B Tgt).
+    { eapply Permutation_in; [apply Permutation_sym; exact Hperm|]. apply (UP_snd PUs Fs (A, B)) in HAB. cbn [snd] in HAB.
+      rewrite app_assoc. apply in_or_app. now left. }
+    destruct (block_facts B HBT) as [HBnd HBa].
+    assert (HrelAB : incl (pa_elems A) B /\ NoDup (pa_elems A) /\ completable votes A (unpl A B)).
+    { unfold UP in HAB. apply in_app_or in HAB. destruct HAB as [H|H].
+      - rewrite Forall_forall in HR. destruct (HR (A, B)) as (R1 & R2 & R3 & _); [apply in_or_app; now left|]. auto.
+      - apply in_map_iff in H. destruct H as (B0 & E0 & _). injection E0 as <- <-.
+        split; [intros a []|]. split; [constructor|]. rewrite unpl_empty. now apply HT_sp. }
+    destruct HrelAB as (R1 & R2 & R3).
+    destruct (piece_step A B h HBnd HBa R1 R2 R3 Hbot) as (p & A' & Hp & Hpl & Hneq & Q1 & Q2 & Q3 & Hel & Hbots).
+    (* the partner, if any *)
+    set (pairing := match p with [_; y] => Some y | _ => None end).
+    assert (Hpair : (p = [h] /\ pairing = None) \/ (exists y, p = [h; y] /\ pairing = Some y /\ y <> h /\ In y (unpl A B))).
+    { destruct Hp as [->|(y & -> & Hy1 & Hy2)]; [left; auto|right; exists y; auto]. }
+    assert (HpB : forall a, In a p -> In a B).
+    { intros a Ha. destruct Hpair as [[-> _]|(y & -> & _ & _ & Hy)].
+      - destruct Ha as [<-|[]]. apply unpl_In in HhU. tauto.
+      - destruct Ha as [<-|[<-|[]]]; [apply unpl_In in HhU|apply unpl_In in Hy]; tauto. }
+    assert (Hpp : forall a, In a p <-> a = h \/ pairing = Some a).
+    { intros a. destruct Hpair as [[-> ->]|(y & -> & -> & _ & _)]; simpl.
+      - split; [intros [<-|[]]; now left|intros [->|H]; [now left|discriminate]].
+      - split; [intros [<-|[<-|[]]]; auto|intros [->|H]; [now left|injection H as ->; right; now left]]. }
+    assert (Hnl2 : ~ In h (tail ++ later) /\ NoDup (tail ++ later)) by (simpl in Hnl; now apply NoDup_cons_iff in Hnl).
+    destruct Hnl2 as [Hh_notin Hnl'].
+    (* the new state, for both positions of (A, B) *)
+    assert (Hcase : exists PUs' Fs',
+      Permutation (map snd PUs ++ Fs ++ map snd PD) (map snd PUs' ++ Fs' ++ map snd PD ++ [B]) /\
+      (forall q, In q (UP PUs' Fs') -> In q (UP PUs Fs)) /\
+      (forall q, In q (UP PUs Fs) -> q = (A, B) \/ In q (UP PUs' Fs')) /\
+      Forall RelP PUs' /\
+      (forall lim e res, length Tgt <= lim -> ExtR votes lim (map fst PUs') (map fst PD ++ [A']) e res ->
+                         ExtR votes lim (map fst PUs) (map fst PD) (p :: e) res) /\
+      length PUs' + length Fs' + 1 = length PUs + length Fs /\
+      (forall a, In a (E (map fst PUs ++ map fst PD)) -> In a (E (map fst PUs' ++ map fst PD ++ [A'])))).
+    { unfold UP in HAB. apply in_app_or in HAB. destruct HAB as [H|H].
+      - apply in_split in H. destruct H as (P1 & P2 & ->). exists (P1 ++ P2), Fs.
+        assert (Ca0 : Permutation (map snd (P1 ++ (A, B) :: P2) ++ Fs ++ map snd PD)
+                                  (map snd (P1 ++ P2) ++ Fs ++ map snd PD ++ [B])).
+        { rewrite !map_app. simpl. rewrite <- !app_assoc. simpl.
+          replace (map snd P2 ++ Fs ++ map snd PD ++ [B]) with ((map snd P2 ++ Fs ++ map snd PD) ++ [B])
+            by (rewrite <- !app_assoc; reflexivity).
+          apply perm_to_end. }
+        assert (HndBL : NoDup (concat ((map snd (P1 ++ P2) ++ Fs ++ map snd PD) ++ [B]))).
+        { eapply Permutation_NoDup; [|exact HT_nd]. apply Permutation_concat. eapply perm_trans; [exact Hperm|].
+          eapply perm_trans; [exact Ca0|]. rewrite <- !app_assoc. apply Permutation_refl. }
+        split; [|split; [|split; [|split; [|split; [|split]]]]].
+        + exact Ca0.
+        + intros q Hq. unfold UP in *. apply in_app_or in Hq. apply in_or_app. destruct Hq as [Hq|Hq]; [left|now right].
+          apply in_app_or in Hq. apply in_or_app. destruct Hq; [now left|right; now right].
+        + intros q Hq. unfold UP in *. apply in_app_or in Hq. destruct Hq as [Hq|Hq]; [|right; apply in_or_app; now right].
+          apply in_app_or in Hq. destruct Hq as [Hq|[Hq|Hq]]; [right|now left|right]; apply in_or_app; left; apply in_or_app; auto.
+        + rewrite Forall_forall in *. intros q Hq. apply HR. apply in_or_app. left.
+          apply in_app_or in Hq. apply in_or_app. destruct Hq; [now left|right; now right].
+        + intros lim e res _ HE. apply (ExtR_old votes lim _ _ p e res A A'); auto.
+          * apply in_map_iff. exists (A, B). split; [reflexivity|]. apply in_or_app. right. now left.
+          * assert (Hskip : filter (fun a => negb (pa_eqb a A)) (map fst (P1 ++ (A, B) :: P2)) = map fst (P1 ++ P2)).
+            { rewrite !map_app. simpl. rewrite filter_app. simpl. rewrite pa_eqb_refl. simpl.
+              assert (Hd : forall q, In q (P1 ++ P2) -> fst q <> A).
+              { intros q Hq Eq. rewrite Forall_forall in HR.
+                destruct (HR q) as (S1 & _ & _ & S4).
+                { apply in_or_app. left. apply in_app_or in Hq. apply in_or_app. destruct Hq; [now left|right; now right]. }
+                destruct (pa_elems (fst q)) as [|x r] eqn:Ex; [congruence|].
+                apply (blocks_disjoint _ B (snd q) x HndBL).
+                - apply in_or_app. left. now apply in_map.
+                - apply S1. now left.
+                - apply R1. rewrite <- Eq, Ex. now left. }
+              rewrite <- filter_app, <- map_app. now apply filter_skip. }
+            rewrite Hskip. exact HE.
+        + rewrite !app_length. simpl. lia.
+        + intros a Ha. unfold E in *. apply in_flat_map in Ha. destruct Ha as (X & HX & HaX). apply in_flat_map.
+          apply in_app_or in HX. destruct HX as [HX|HX].
+          * rewrite map_app in HX. simpl in HX. apply in_app_or in HX. destruct HX as [HX|[HX|HX]].
+            -- exists X. split; [|assumption]. apply in_or_app. left. rewrite map_app. apply in_or_app. now left.
+            -- subst X. exists A'. split; [|apply Hel; now left]. apply in_or_app. right. apply in_or_app. right. now left.
+            -- exists X. split; [|assumption]. apply in_or_app. left. rewrite map_app. apply in_or_app. now right.
+          * exists X. split; [|assumption]. apply in_or_app. right. apply in_or_app. now left.
+      - apply in_map_iff in H. destruct H as (B0 & E0 & HB0). injection E0 as EA EB. subst B0. subst A.
+        apply in_split in HB0. destruct HB0 as (F1 & F2 & ->). exists PUs, (F1 ++ F2).
+        split; [|split; [|split; [|split; [|split; [|split]]]]].
+        + apply Permutation_app_head. rewrite <- !app_assoc. apply Permutation_app_head. simpl.
+          replace (F2 ++ map snd PD ++ [B]) with ((F2 ++ map snd PD) ++ [B]) by (rewrite <- !app_assoc; reflexivity).
+          apply Permutation_cons_append.
+        + intros q Hq. unfold UP in *. apply in_app_or in Hq. apply in_or_app. destruct Hq as [Hq|Hq]; [now left|right].
+          rewrite map_app in *. apply in_app_or in Hq. apply in_or_app. destruct Hq; [now left|right; now right].
+        + intros q Hq. unfold UP in *. apply in_app_or in Hq. destruct Hq as [Hq|Hq]; [right; apply in_or_app; now left|].
+          rewrite map_app in Hq. apply in_app_or in Hq. destruct Hq as [Hq|[Hq|Hq]]; [right|left; now symmetry|right];
+            apply in_or_app; right; rewrite map_app; apply in_or_app; auto.
+        + rewrite Forall_forall in *. intros q Hq. apply HR. apply in_or_app. now left.
+        + intros lim e res Hlim HE. apply (ExtR_new votes lim _ _ p e res A'); auto.
+          apply Permutation_length in Hperm. rewrite !app_length, !map_length in *. simpl in Hperm. lia.
+        + rewrite !app_length. simpl. lia.
+        + intros a Ha. unfold E in *. apply in_flat_map in Ha. destruct Ha as (X & HX & HaX). apply in_flat_map.
+          exists X. split; [|assumption]. apply in_app_or in HX. apply in_or_app. destruct HX as [HX|HX]; [now left|right].
+          apply in_or_app. now left. }
+    destruct Hcase as (PUs' & Fs' & Ca & Cb & Cc & Cd & Ce & Cf & Cg).
+    assert (HndBL' : NoDup (concat ((map snd PUs' ++ Fs' ++ map snd PD) ++ [B]))).
+    { eapply Permutation_NoDup; [|exact HT_nd]. apply Permutation_concat. eapply perm_trans; [exact Hperm|].
+      eapply perm_trans; [exact Ca|]. rewrite <- !app_assoc. apply Permutation_refl. }
+    assert (Hother : forall q y, In q (UP PUs' Fs') -> In y (snd q) -> ~ In y B).
+    { intros q y Hq Hy HyB. apply (blocks_disjoint _ B (snd q) y HndBL'); auto.
+      apply UP_snd in Hq. rewrite app_assoc. apply in_or_app. now left. }
+    assert (HhA' : forall a, In a p -> In a (pa_elems A')) by (intros a Ha; apply Hel; now right).
+    destruct (IH (removeN pairing tail) (removeN pairing later) PUs' Fs' (PD ++ [(A', B)])) as (ext' & Hcan & Hlen' & Hres).
+    + pose proof (removeN_length pairing tail). simpl in Hlen. lia.
+    + rewrite map_app. simpl. eapply perm_trans; [exact Hperm|]. exact Ca.
+    + rewrite app_assoc. apply Forall_app. split.
+      * apply Forall_app. split; [assumption|]. rewrite Forall_forall in *. intros q Hq. apply HR. apply in_or_app. now right.
+      * constructor; [|constructor]. unfold RelP. cbn [fst snd]. split; [assumption|]. split; [assumption|].
+        split; [assumption|]. intros E0. specialize (HhA' h (proj2 (Hpp h) (or_introl eq_refl))). rewrite E0 in HhA'. contradiction.
+    + now apply NoDup_removeN_app.
+    + intros A2 B2 y Hq Hy. specialize (J1 A2 B2 y (Cb _ Hq) Hy).
+      assert (HyB : ~ In y B) by (apply (Hother (A2, B2) y Hq); apply unpl_In in Hy; tauto).
+      assert (Hyp : ~ In y p) by (intros H; apply HyB; now apply HpB).
+      rewrite Hpp in Hyp. destruct J1 as [->|J1]; [tauto|].
+      apply in_app_or in J1. apply in_or_app. destruct J1 as [J1|J1]; [left|right]; apply removeN_In; split; auto;
+        intros E0; apply Hyp; now right.
+    + intros h' Hh'. apply removeN_In in Hh'. destruct Hh' as [Hh' Hnp].
+      destruct (J2 h' (or_intror Hh')) as (A2 & B2 & Hq & Hu). destruct (Cc _ Hq) as [E0|Hq']; [|eauto].
+      injection E0 as -> ->. exfalso. specialize (J3 A B h' Hq (or_intror Hh') Hu). apply Hbots in J3.
+      apply Hpp in J3. destruct J3 as [->|J3]; [apply Hh_notin; apply in_or_app; now left|congruence].
+    + intros A2 B2 h' Hq Hh' Hu. apply removeN_In in Hh'. destruct Hh' as [Hh' _].
+      apply (J3 A2 B2 h' (Cb _ Hq) (or_intror Hh') Hu).
+    + exists (p :: ext'). split; [|split].
+      * destruct Hpair as [[-> ->]|(y & -> & -> & Hyh & Hy)].
+        -- simpl in Hcan. now constructor.
+        -- constructor; [|assumption]. specialize (J1 A B y HAB Hy). destruct J1 as [->|J1]; [congruence|assumption].
+      * simpl. lia.
+      * intros lim Hlim. destruct (Hres lim Hlim) as (res & HE & HC & Hm & Hit). exists res.
+        rewrite map_app in HE. simpl in HE. split; [now apply Ce|]. split; [assumption|]. split.
+        -- intros a Ha. apply Hm. rewrite map_app. simpl. now apply Cg.
+        -- assert (HA'res : forall a, In a (pa_elems A') -> In a (E res)).
+           { intros a Ha. apply Hm. rewrite map_app. simpl. rewrite !E_app. unfold E at 3. simpl. rewrite app_nil_r, !in_app_iff. auto. }
+           intros h' [<-|Hh']; [apply HA'res, HhA', Hpp; now left|].
+           destruct (in_dec N.eq_dec h' (removeN pairing tail)) as [Hi|Hn]; [now apply Hit|].
+           apply HA'res, HhA', Hpp. right. destruct pairing as [y|]; [|exfalso; apply Hn; exact Hh'].
+           destruct (N.eq_dec h' y) as [->|Hne]; [reflexivity|]. exfalso. apply Hn. apply removeN_In. split; [assumption|congruence].
+Qed.
+
 End Complete.
